@@ -131,7 +131,8 @@ def streams(rng, tier):
                 rule="tencpath <path type> <raw bytes>: PathBuf / Box<Path> / &Path / Vec<PathBuf> / Option<PathBuf> built from arbitrary bytes: either the "
                      "encoder refuses (non-UTF-8, the property's exclusion) or the reported len equals the bytes written")
     s4.shrinkable = False
-    return [s1, s2, s3, s4] + derived + [C08.attr_stream(tier, "len")]
+    from verifkit import dextra
+    return [s1, s2, s3, s4] + derived + [C08.attr_stream(tier, "len"), dextra.stream(rng, tier)]
 
 
 def _judge_derived(op, impl, model, spec):
@@ -146,6 +147,9 @@ def _judge_derived(op, impl, model, spec):
 
 
 def replay_streams(rp):
+    if rp.get("original_op", rp["op"]).startswith("dextra"):
+        from verifkit import dextra
+        return [dextra.replay(rp)]
     if rp["op"].startswith("denc"):
         st = Stream("replay", "dgen", [rp["op"]], model_ops=[rp.get("model_op") or rp["op"]], judge=_judge_derived)
         st.shrinkable = False
